@@ -100,6 +100,16 @@ def build(d, params=('P0',), ref_names=None, taxa=None, qlabels=None, pathlike_s
 		lp = os.path.join(d, 'qlinks', f'staged_{lab}_input{ext}')
 		os.symlink(fx.q[lab], lp)
 		fx.qlink[lab] = lp
+	# plain FASTA under a name that ends in .gz, gzip under a name that does not (compression is recognised from the content)
+	fx.qmis = {}
+	for lab, segs in QUERIES.items():
+		if QFILES[lab].endswith('.gz'):
+			mp = os.path.join(d, 'qmis', QFILES[lab][:-3])
+			fixtures.write_fasta(mp, contigs_of(segs), gz=True)
+		else:
+			mp = os.path.join(d, 'qmis', QFILES[lab] + '.gz')
+			fixtures.write_fasta(mp, contigs_of(segs), gz=False)
+		fx.qmis[lab] = mp
 	fx.qx = {}
 	for lab, segs in EXTRA_QUERIES.items():
 		p = os.path.join(d, 'q', EXTRA_QFILES[lab])
